@@ -332,4 +332,10 @@ def selftest():
     n = replay_lines(dropped, "drop")
     lib.log("statestore selftest: dropped event -> %d deviations" % n)
     ok &= (n > 0 and done)
+    ok &= ssz.run_code_mutants([
+        ("copystate-shares-backing", "eth2/beacon/capella/state.go",
+         "return AsBeaconStateView(state.ContainerView.Copy())", "return state, nil", "C15"),
+        ("stateroots-bound-to-blockroots", "eth2/beacon/phase0/state.go",
+         "return AsBatchRoots(state.Get(_stateStateRoots))", "return AsBatchRoots(state.Get(_stateBlockRoots))", "C15"),
+    ])
     return ok
